@@ -1,7 +1,7 @@
 (* C05 facts, part 3: decidable guards and the packaged theorems. *)
 From Skv Require Import PyStrFacts CodecGuards CodecWfFacts PyValInd NodeInd TreeIds GraphAudit ConstructFacts.
 From Coq Require Import Lia.
-From Skv Require Import CodecTreeFacts CodecShareFacts PyValEqFacts.
+From Skv Require Import CodecTreeFacts CodecMemberFacts CodecShareFacts PyValEqFacts.
 
 (* the objects of a value: the value, its sub-values, and the type objects of its dict keys *)
 Definition kt_objs (D : denv) (l : list (dkey * pval)) : list pval :=
@@ -12,6 +12,10 @@ Fixpoint objs (D : denv) (v : pval) {struct v} : list pval :=
        | PDict _ _ _ l => kt_objs D l ++ flat_map (fun kv => objs D (snd kv)) l
        | PDefDict _ _ _ f l => kt_objs D l ++ objs D f ++ flat_map (fun kv => objs D (snd kv)) l
        | POpFunc _ _ a => objs D a
+       | PMasked _ _ _ d k => objs D d ++ objs D k
+       | PRandState _ _ _ x => objs D x
+       | PRandGen _ _ _ x y => objs D x ++ objs D y
+       | PPartial _ _ _ f a k n => objs D f ++ objs D a ++ objs D k ++ objs D n
        | _ => []
        end.
 
@@ -43,6 +47,12 @@ Definition opfunc_okb (c : pstr) (attrs : pval) : bool :=
   | _ => false
   end.
 
+Definition arr_clsb (F : cfacts) (gen : bool) (mo c : pstr) : bool :=
+  (negb gen && pstr_eqb mo (s "numpy") && pstr_eqb c (s "ndarray"))
+  || (negb (pstr_eqb (qual mo c) (s "numpy.ndarray")) && resolvable F mo c && Bool.eqb gen (mem (qual mo c) (f_generic F))).
+Definition partial_okb (a k : pval) : bool :=
+  match a, k with PSeq QTuple _ _ _ _ _, PDict _ _ _ _ => true | _, _ => false end.
+
 (* the proved fragment of the property's grammar *)
 Fixpoint fragb (F : cfacts) (D : denv) (v : pval) {struct v} : bool :=
   match v with
@@ -55,6 +65,14 @@ Fixpoint fragb (F : cfacts) (D : denv) (v : pval) {struct v} : bool :=
   | PSlice _ a b c => bound_supported a && bound_supported b && bound_supported c
   | PFunc _ mo c | PType _ mo c => resolvable F mo c
   | POpFunc _ c a => resolvable F (s "operator") c && opfunc_okb c a && fragb F D a
+  | PArr _ gen mo c _ => arr_clsb F gen mo c
+  | PSparse _ _ _ _ | PDType _ _ => true
+  | PMasked _ mo c d k => pstr_eqb mo (s "numpy.ma") && pstr_eqb c (s "MaskedArray") && fragb F D d && fragb F D k
+  | PRandState _ mo c x => resolvable F mo c && fragb F D x
+  | PRandGen _ mo c x y => resolvable F mo c && fragb F D x && fragb F D y
+  | PPartial _ mo c f a k n =>
+      pstr_eqb mo (s "functools") && pstr_eqb c (s "partial") && partial_okb a k
+      && fragb F D f && fragb F D a && fragb F D k && fragb F D n
   | _ => false
   end.
 
@@ -92,8 +110,13 @@ Section Pack.
   Proof.
     apply (pval_ind' (fun v => fragb F D v = true -> incl (objs D v) U -> vok D F Objs v)).
     - intros v Hl Hf Hi. assert (Ho : Objs v) by (unfold Objs; apply Hi; destruct v; cbn [objs]; left; reflexivity).
-      destruct v; try discriminate Hl; cbn [fragb] in Hf; try discriminate Hf; cbn [vok]; (split; [exact Ho|]); try exact Hf.
-      apply andb_prop in Hf. destruct Hf as [Hf H3]. apply andb_prop in Hf. destruct Hf as [H1 H2]. auto.
+      destruct v; try discriminate Hl; cbn [fragb] in Hf; try discriminate Hf; cbn [vok]; (split; [exact Ho|]); try exact Hf; try exact I.
+      + apply andb_prop in Hf. destruct Hf as [Hf H3]. apply andb_prop in Hf. destruct Hf as [H1 H2]. auto.
+      + unfold arr_clsb in Hf. unfold arr_cls_ok. apply orb_prop in Hf. destruct Hf as [Hf|Hf].
+        * left. apply andb_prop in Hf. destruct Hf as [Hf H3]. apply andb_prop in Hf. destruct Hf as [H1 H2].
+          apply negb_true_iff in H1. apply pstr_eqb_eq in H2, H3. auto.
+        * right. apply andb_prop in Hf. destruct Hf as [Hf H3]. apply andb_prop in Hf. destruct Hf as [H1 H2].
+          apply negb_true_iff in H1. apply Bool.eqb_prop in H3. auto.
     - intros q id mo c nt l IH Hf Hi. cbn [fragb] in Hf. apply andb_prop in Hf. destruct Hf as [Hf Hall]. apply andb_prop in Hf. destruct Hf as [Hf Hc].
       apply andb_prop in Hf. destruct Hf as [Hmo Hnt]. apply pstr_eqb_eq in Hmo. apply negb_true_iff in Hnt. subst.
       cbn [vok]. split; [unfold Objs; apply Hi; cbn [objs]; left; reflexivity|]. split; [reflexivity|]. split; [reflexivity|]. split.
@@ -122,10 +145,28 @@ Section Pack.
       + apply Hx; [apply Hall; left; reflexivity|]. apply (incl_flat (fun kv => objs D (snd kv)) (x :: l) x (or_introl eq_refl) Hi').
       + apply IHl; [exact Hr|intros y Hy; apply Hall; right; exact Hy|]. intros y Hy. apply Hi'. cbn [flat_map]. apply in_or_app. right. exact Hy.
     - intros; discriminate.
-    - intros; discriminate.
-    - intros; discriminate.
-    - intros; discriminate.
-    - intros; discriminate.
+    - intros id mo c d k IHd IHk Hf Hi. cbn [fragb] in Hf. apply andb_prop in Hf. destruct Hf as [Hf Hfk]. apply andb_prop in Hf. destruct Hf as [Hf Hfd].
+      apply andb_prop in Hf. destruct Hf as [Hmo Hc]. apply pstr_eqb_eq in Hmo, Hc. subst.
+      cbn [vok]. split; [unfold Objs; apply Hi; cbn [objs]; left; reflexivity|]. split; [reflexivity|]. split; [reflexivity|]. cbn [objs] in Hi. split.
+      + apply IHd; [exact Hfd|]. intros y Hy. apply Hi. right. apply in_or_app. left. exact Hy.
+      + apply IHk; [exact Hfk|]. intros y Hy. apply Hi. right. apply in_or_app. right. exact Hy.
+    - intros id mo c x IHx Hf Hi. cbn [fragb] in Hf. apply andb_prop in Hf. destruct Hf as [Hr Hfx].
+      cbn [vok]. split; [unfold Objs; apply Hi; cbn [objs]; left; reflexivity|]. split; [exact Hr|].
+      apply IHx; [exact Hfx|]. intros y Hy. apply Hi. cbn [objs]. right. exact Hy.
+    - intros id mo c x y IHx IHy Hf Hi. cbn [fragb] in Hf. apply andb_prop in Hf. destruct Hf as [Hf Hfy]. apply andb_prop in Hf. destruct Hf as [Hr Hfx].
+      cbn [vok]. split; [unfold Objs; apply Hi; cbn [objs]; left; reflexivity|]. split; [exact Hr|]. cbn [objs] in Hi. split.
+      + apply IHx; [exact Hfx|]. intros z Hz. apply Hi. right. apply in_or_app. left. exact Hz.
+      + apply IHy; [exact Hfy|]. intros z Hz. apply Hi. right. apply in_or_app. right. exact Hz.
+    - intros id mo c f a k n IHf IHa IHk IHn Hf Hi. cbn [fragb] in Hf.
+      apply andb_prop in Hf. destruct Hf as [Hf Hfn]. apply andb_prop in Hf. destruct Hf as [Hf Hfk]. apply andb_prop in Hf. destruct Hf as [Hf Hfa].
+      apply andb_prop in Hf. destruct Hf as [Hf Hff]. apply andb_prop in Hf. destruct Hf as [Hf Hok]. apply andb_prop in Hf. destruct Hf as [Hmo Hc].
+      apply pstr_eqb_eq in Hmo, Hc. subst.
+      cbn [vok]. split; [unfold Objs; apply Hi; cbn [objs]; left; reflexivity|]. split; [reflexivity|]. split; [reflexivity|]. cbn [objs] in Hi. split.
+      { unfold partial_okb in Hok. unfold partial_ok. destruct a; try discriminate Hok. destruct q; try discriminate Hok. destruct k; try discriminate Hok. exact I. }
+      split; [apply IHf; [exact Hff|]; intros z Hz; apply Hi; right; apply in_or_app; left; exact Hz|].
+      split; [apply IHa; [exact Hfa|]; intros z Hz; apply Hi; right; apply in_or_app; right; apply in_or_app; left; exact Hz|].
+      split; [apply IHk; [exact Hfk|]; intros z Hz; apply Hi; right; apply in_or_app; right; apply in_or_app; right; apply in_or_app; left; exact Hz|].
+      apply IHn; [exact Hfn|]. intros z Hz. apply Hi. right. apply in_or_app. right. apply in_or_app. right. apply in_or_app. right. exact Hz.
     - intros id c a IHa Hf Hi. cbn [fragb] in Hf. apply andb_prop in Hf. destruct Hf as [Hf Hfa]. apply andb_prop in Hf. destruct Hf as [Hr Hok].
       cbn [vok]. split; [unfold Objs; apply Hi; cbn [objs]; left; reflexivity|]. split; [exact Hr|]. split.
       + unfold opfunc_okb in Hok. unfold opfunc_attrs_ok. destruct a; try discriminate Hok. destruct items as [|x items]; [discriminate Hok|].
@@ -153,50 +194,30 @@ Definition load_state (C : cenv) (files : list (hkey * json)) (proto : json) (j 
 Definition c05_guard (F : cfacts) (D : denv) (base : Z) (v : pval) : bool :=
   fragb F D v && objs_wf base (objs D v) && Nat.leb (need v) default_fuel.
 
-Theorem share_roundtrip D F C files base v j st :
-  c_namedtuples C = f_namedtuples F /\ c_missing C = f_missing F ->
+Theorem share_roundtrip D F C base v j st :
+  c_namedtuples C = f_namedtuples F /\ c_missing C = f_missing F -> c_generic C = f_generic F ->
+  c_members C = d_members st -> e_members (c_env C) = map fst (c_members C) ->
   facts_sane F = true -> reg_ok (e_reg (c_env C)) (e_cur (c_env C)) = true ->
   c05_guard F D base v = true ->
   get_state D v (init_dst base) = Ok (j, st) ->
-  d_late st = None /\ load_state C files (JInt (e_cur (c_env C))) j = Ok v.
+  d_late st = None /\ load_state C (file_table j) (JInt (e_cur (c_env C))) j = Ok v.
 Proof.
-  intros HC Hs Hr Hg Hst. unfold c05_guard in Hg. apply andb_prop in Hg. destruct Hg as [Hg Hn]. apply andb_prop in Hg. destruct Hg as [Hf Hw].
+  intros HC HCg HCm HEC Hs Hr Hg Hst. unfold c05_guard in Hg. apply andb_prop in Hg. destruct Hg as [Hg Hn]. apply andb_prop in Hg. destruct Hg as [Hf Hw].
   apply Nat.leb_le in Hn. destruct (objs_wf_fun _ _ Hw) as [Ofun Oid].
+  set (Objs := fun w => In w (objs D v)).
   pose proof (fragb_vok D F (objs D v) v Hf (fun y Hy => Hy)) as Hv.
-  destruct (vok_Q D F (c_env C) C files base (fun w => In w (objs D v)) Oid Hr HC Hs v Hv _ _ _ Hst ltac:(cbn; lia)) as [Hl [_ HQ]].
+  (* first with an empty file table: the dump-side conclusions do not depend on it *)
+  destruct (vok_Q D F (c_env C) C [] base Objs Ofun Oid Hr HC Hs (fun h x1 x2 H1 => match H1 with end) HEC HCg v Hv _ _ _ Hst ltac:(cbn; lia))
+    as [Hl [_ [[_ [Hftd _]] _]]].
   split; [exact Hl|].
-  destruct (HQ default_fuel [] (SOne (GetTree.K "root")) Hn) as [R [m' [Ht _]]]; [intros h Hh; discriminate Hh|].
+  assert (HFone : forall h x1 x2, In (h, x1) (file_table j) -> In (h, x2) (file_table j) -> x1 = x2)
+    by (exact (FTd_one base Objs Ofun Oid j Hftd)).
+  destruct (vok_Q D F (c_env C) C (file_table j) base Objs Ofun Oid Hr HC Hs HFone HEC HCg v Hv _ _ _ Hst ltac:(cbn; lia)) as [_ [_ [_ HQ]]].
+  assert (Hpre : Pre C (file_table j) base Objs (init_dst base) j st).
+  { split; [intros f b Hd; discriminate Hd|]. split; [rewrite HCm; apply lk_refl|apply incl_refl]. }
+  destruct (HQ default_fuel [] (SOne (GetTree.K "root")) Hn ltac:(intros h Hh; discriminate Hh) Hpre) as [R [m' [Ht _]]].
   unfold load_state. rewrite Ht. cbn [bind].
-  apply (root_construct D F (c_env C) C files base (fun w => In w (objs D v)) Ofun Oid Hr HC Hs v _ _ _ default_fuel R m' Hv Hst ltac:(cbn; lia) Hn Ht).
+  apply (root_construct D F (c_env C) C (file_table j) base Objs Ofun Oid Hr HC Hs HFone HEC HCg v _ _ _ default_fuel R m' Hv Hst ltac:(cbn; lia) Hpre Hn Ht).
   unfold construct_fuel, default_fuel in *. lia.
 Qed.
 
-(* one dump/load cycle on states, and k of them *)
-Definition cycle_state (D : denv) (C : cenv) (files : list (hkey * json)) (base : Z) (v : pval) : res pval :=
-  do (j, _) <- get_state D v (init_dst base);
-  load_state C files (JInt (e_cur (c_env C))) j.
-Fixpoint cycles (D : denv) (C : cenv) (files : list (hkey * json)) (base : Z) (k : nat) (v : pval) : res pval :=
-  match k with
-  | O => Ok v
-  | S k' => do v' <- cycle_state D C files base v; cycles D C files base k' v'
-  end.
-
-Theorem share_cycle D F C files base v :
-  c_namedtuples C = f_namedtuples F /\ c_missing C = f_missing F ->
-  facts_sane F = true -> reg_ok (e_reg (c_env C)) (e_cur (c_env C)) = true ->
-  c05_guard F D base v = true ->
-  forall j st, get_state D v (init_dst base) = Ok (j, st) -> cycle_state D C files base v = Ok v.
-Proof.
-  intros HC Hs Hr Hg j st Hst. unfold cycle_state. rewrite Hst. cbn [bind].
-  exact (proj2 (share_roundtrip D F C files base v j st HC Hs Hr Hg Hst)).
-Qed.
-
-Theorem share_stable D F C files base v :
-  c_namedtuples C = f_namedtuples F /\ c_missing C = f_missing F ->
-  facts_sane F = true -> reg_ok (e_reg (c_env C)) (e_cur (c_env C)) = true ->
-  c05_guard F D base v = true ->
-  forall j st, get_state D v (init_dst base) = Ok (j, st) -> forall k, cycles D C files base k v = Ok v.
-Proof.
-  intros HC Hs Hr Hg j st Hst k. induction k as [|k IH]; [reflexivity|].
-  cbn [cycles]. rewrite (share_cycle D F C files base v HC Hs Hr Hg j st Hst). cbn [bind]. exact IH.
-Qed.
